@@ -20,7 +20,7 @@ import (
 
 func init() {
 	vc.Register(&vc.Check{ID: "C05", Level: "model_checking", Run: run, Replay: replay, QuickSec: 120, ThoroSec: 900,
-		Rule: "real bac.DoBAC (password from the full MRZ and from its three fields) against the independent chip personalised with keys derived by the reference from the printed MRZ. MRZ alphabet: three layouts x document-number lengths 1..9 and extended 10..max x filler/letter/digit shapes x date shapes; randoms RND.IC, K.IC (chip) and RND.IFD, K.IFD (terminal, through crypto/rand.Reader) from the full product {00..,FF..,pattern}^4. Success oracle: Success, the chip authenticated the terminal, and a protected file read succeeds on both sides (same session keys and SSC). Hostile responses (one deviation at the EXTERNAL AUTHENTICATE answer): every single-bit flip of the 40-byte cryptogram, MAC under another MRZ's keys, genuine cryptogram of another run, RND.IFD / RND.IC not echoed under a correct MAC, lengths 39/41, all-zero, bare status, the terminal's own cryptogram reflected => Success=false and no SM session. states = protocol runs, transitions = exchanges; distinct_nontrivial = distinct (layout, docnum length, random combo | hostile kind, outcome)",
+		Rule:   "real bac.DoBAC (password from the full MRZ and from its three fields) against the independent chip personalised with keys derived by the reference from the printed MRZ. MRZ alphabet: three layouts x document-number lengths 1..9 and extended 10..max x filler/letter/digit shapes x date shapes; randoms RND.IC, K.IC (chip) and RND.IFD, K.IFD (terminal, through crypto/rand.Reader) from the full product {00..,FF..,pattern}^4. Success oracle: Success, the chip authenticated the terminal, and a protected file read succeeds on both sides (same session keys and SSC). Hostile responses (one deviation at the EXTERNAL AUTHENTICATE answer): every single-bit flip of the 40-byte cryptogram, MAC under another MRZ's keys, genuine cryptogram of another run, RND.IFD / RND.IC not echoed under a correct MAC, lengths 39/41, all-zero, bare status, the terminal's own cryptogram reflected => Success=false and no SM session. Histories: every sequence of up to 3 (thorough 4) runs on one session over {conforming chip, key-less device replaying the recorded previous run, 6300}, through one reused BAC object and through a new object per run: conforming runs succeed with a usable session, every other run fails closed. states = protocol runs, transitions = exchanges; distinct_nontrivial = distinct (layout, docnum length, random combo | hostile kind, outcome)",
 		Assume: []string{"reference KDF / 3DES / retail MAC anchored to ICAO 9303-11 App. D.2/D.3 by SelfTest", "MAC forgery not searched"}})
 }
 
@@ -38,15 +38,15 @@ var patterns = map[string]func(n int) []byte{
 var patNames = []string{"00", "FF", "pt"}
 
 type runCase struct {
-	Zone    string `json:"zone"`
-	MRZInfo string `json:"mrz_info"` // reference expectation, used to personalise the chip
-	ViaMrzi bool   `json:"via_fields"`
-	DocNum  string `json:"doc_number"`
-	DOB     string `json:"dob"`
-	DOE     string `json:"doe"`
+	Zone    string    `json:"zone"`
+	MRZInfo string    `json:"mrz_info"` // reference expectation, used to personalise the chip
+	ViaMrzi bool      `json:"via_fields"`
+	DocNum  string    `json:"doc_number"`
+	DOB     string    `json:"dob"`
+	DOE     string    `json:"doe"`
 	Rnd     [4]string `json:"rnd"` // RND.IC, K.IC, RND.IFD, K.IFD pattern names
-	Hostile string `json:"hostile"`
-	Bit     int    `json:"bit"`
+	Hostile string    `json:"hostile"`
+	Bit     int       `json:"bit"`
 }
 
 type result struct {
@@ -332,9 +332,52 @@ hostile:
 			}
 		}
 	}
+	sec3 := "histories of runs on one session"
+	depth := 3
+	if c.Thorough() {
+		depth = 4
+	}
+	seqs := histSeqs(depth)
+	c.SecBound(sec3, fmt.Sprintf("%d bases x all %d histories of up to %d runs over {conforming chip, key-less device replaying the last recorded run, 6300} x {one BAC object for all runs, a new BAC object per run} x 2 password routes; terminal randoms never repeat", len(hb), len(seqs), depth))
+	for _, b := range hb {
+		for _, sq := range seqs {
+			for _, same := range []bool{true, false} {
+				for _, via := range []bool{false, true} {
+					if !c.Mine() {
+						continue
+					}
+					hc := histCase{Zone: b.Zone, MRZInfo: b.Info, ViaMrzi: via, DocNum: b.DocNum, DOB: b.DOB, DOE: b.DOE, Seq: sq, SameObject: same}
+					r := runHist(hc)
+					c.AddStates(int64(len(sq)))
+					c.AddTrans(int64(r.Exchanges))
+					c.AddTraces(1)
+					c.Outcome(sec3, r.Outcome)
+					c.Distinct(fmt.Sprintf("hist/%s/%v/%s", sq, same, r.Outcome))
+					if r.Key == "harness" {
+						c.HarnessError("%s", r.What)
+						continue
+					}
+					if r.Key != "" {
+						c.Violation(sec3, r.Key, r.What, hc, func() bool { return runHist(hc).Key != "" })
+					}
+				}
+			}
+		}
+	}
 }
 
 func replay(c *vc.Ctx, raw json.RawMessage) string {
+	var hd struct {
+		Section string   `json:"section"`
+		Case    histCase `json:"case"`
+	}
+	if json.Unmarshal(raw, &hd) == nil && hd.Case.Seq != "" {
+		r := runHist(hd.Case)
+		if r.Key != "" {
+			c.Violation(hd.Section, r.Key, r.What, hd.Case, nil)
+		}
+		return fmt.Sprintf("history %+v -> %s; verdict: %s %s", hd.Case, r.Outcome, r.Key, r.What)
+	}
 	var doc struct {
 		Section string  `json:"section"`
 		Case    runCase `json:"case"`
